@@ -4,7 +4,7 @@ from analysis import (E, Src, expr_operand, expr_place, expr_local, expr_rvalue,
                       guards_of, strip_proj, strip_refs, switch_expr, walk_expr, upvar_index)
 from facts import callee_path, is_param_call
 from model import short
-from rules_sched import (CHILDREN, PARENTS, NODE_INDEX, NODE_COUNT_FNS, ALL_NODE_SOURCES, elem_read, node_index_arg, is_const,
+from rules_sched import (ranges_all_nodes, CHILDREN, PARENTS, NODE_INDEX, NODE_COUNT_FNS, ALL_NODE_SOURCES, elem_read, node_index_arg, is_const,
                          const_val, sources_of_expr, stores_through_index, structure_roles, iterator_chain, closure_of_arg,
                          return_expr, same_value, cond_guards, NEUTRAL_ITER, SELECTIVE_ITER, loop_region, POP_DRIVERS)
 
@@ -220,6 +220,15 @@ def access_calls(ctx, body):
     return out
 
 
+def decl_key(s):
+    """identity of an access-declaration read: where it was made; for one made inside a helper and seen from a call of that
+    helper, the call site, the helper parameter it was made on and which declaration it is"""
+    tag = [p for p in s[3] if isinstance(p, str) and p.startswith("@arg")]
+    if tag:
+        return (s[1], s[2], tag[-1], s[4])
+    return (s[1], s[2])
+
+
 def typeid_comparisons(ctx):
     """All equality sites over access declarations reachable from build():
     returns list of (body, bb, term, sides) with sides = 2 x (decl set, other sources), decl = (alloc body id, alloc bb)."""
@@ -237,7 +246,7 @@ def typeid_comparisons_x(ctx):
     out = []
 
     def split(srcs):
-        decl = {(s[1], s[2]) for s in srcs if s.kind == "alloc" and s[4] in ACCESS_FNS}
+        decl = {decl_key(s) for s in srcs if s.kind == "alloc" and s[4] in ACCESS_FNS}
         oth = [s for s in srcs if not (s.kind == "alloc" and s[4] in ACCESS_FNS)]
         return (decl, oth)
 
@@ -284,7 +293,7 @@ def typeid_comparisons_x(ctx):
                 sides = []
                 for a in (s["rv"]["a"], s["rv"]["b"]):
                     srcs = fl.sources_operand(b, a)
-                    decl = {(x[1], x[2]) for x in srcs if x.kind == "alloc" and x[4] in ACCESS_FNS}
+                    decl = {decl_key(x) for x in srcs if x.kind == "alloc" and x[4] in ACCESS_FNS}
                     sides.append((decl, [x for x in srcs if not (x.kind == "alloc" and x[4] in ACCESS_FNS)]))
                 if sides[0][0] or sides[1][0]:
                     out.append((b, bb, None, sides, ()))
@@ -329,7 +338,8 @@ def conflict_model(ctx):
         hacc = access_calls(ctx, H)
         if not hacc:
             continue
-        helpers[hbb] = H
+        if ((ctx.fb.fns.get(H.id) or {}).get("output") or {}).get("s") == "bool":
+            helpers[hbb] = H        # a predicate helper (its truth table is checked); a constructor such as `DataAccess::of` is not
         for abb, (kind, idv, e) in hacc.items():
             root = e
             while root.kind in ("ref", "deref", "cast"):
@@ -356,6 +366,25 @@ def conflict_model(ctx):
         if not l[0] or not r[0] or l[1] or r[1]:
             unknown.append((cb, cbb, "comparison of an access declaration with something else"))
             continue
+        for dk in list(l[0]) + list(r[0]):
+            if len(dk) == 4 and dk not in decl_role:
+                # a declaration read inside a helper, seen from the helper's call at (body, bb): the function is the one whose
+                # weight is passed for that helper parameter
+                cbx = ctx.fb.bodies.get(dk[0])
+                node = None
+                try:
+                    tx = cbx.blocks[dk[1]]["term"]
+                    ae = strip_refs(expr_operand(cbx, tx["args"][int(dk[2][4:]) - 1]))
+                    idv2 = None
+                    for c2 in walk_expr(ae):
+                        if c2.kind == "call" and c2[1] in ("std::ops::Index::index", "daggy::Dag::<N, E, Ix>::node_weight"):
+                            idv2 = strip_refs(c2[2][1])
+                            break
+                    if cbx.id == b.id:
+                        node = node_of(idv2)
+                except Exception:
+                    node = None
+                decl_role[dk] = (node, ACCESS_FNS[dk[3]])
         for dl in l[0]:
             for dr in r[0]:
                 rl, rr = decl_role.get(dl), decl_role.get(dr)
@@ -507,7 +536,13 @@ def R1(ctx, rule="R1"):
         ctx.check(n in norm, rule, "pair|%s-%s" % n, where,
                   "the conflict predicate compares A.%s declarations with B.%s declarations" % n,
                   "the conflict predicate never compares A.%s with B.%s: such a conflict gets no Data edge and both functions run together" % n)
-    ctx.check(len(cm["decl_role"]) >= 4 and all(v[0] for v in cm["decl_role"].values()), rule, "decls", where,
+    used_roles = set()
+    for (cb, cbb, rl, rr) in cm["pairs"]:
+        used_roles.add(rl)
+        used_roles.add(rr)
+    roles_all = [v for k_, v in cm["decl_role"].items() if v[0] is not None or len(k_) == 4 or k_[0] == b.id]
+    ctx.check({("A", "read"), ("A", "write"), ("B", "read"), ("B", "write")} <= (used_roles | set(roles_all)) and all(v[0] for v in used_roles) and
+              not cm["unknown"], rule, "decls", where,
               "the four access-declaration reads (A/B x borrows/borrow_muts) are taken of the two endpoints of the inserted edge",
               "access declarations are not read from exactly the two endpoints: %s" % sorted(str(v) for v in cm["decl_role"].values()))
     # the insertion is taken iff any of the comparisons holds (truth table over the `any` results)
@@ -2006,6 +2041,9 @@ def D1(ctx, rule="D1"):
                 why = "list is %s over %s" % (fmt_expr(f, ab), fmt_expr(src, ab))
         elif names and names[0] in ("daggy::petgraph::Graph::<N, E, Ty, Ix>::node_indices",):
             ok_list = True
+        elif ranges_all_nodes(chain) and not [n for n in names if n in SELECTIVE_ITER or n == "std::iter::Iterator::rev"] and \
+                len([n for n in names if n == "std::iter::Iterator::map"]) <= 1:
+            ok_list = True      # the same enumeration behind a private helper (`fn_ids_all(graph)`)
         else:
             why = "list chain is %s" % names
     cm_list = coll
@@ -3337,7 +3375,7 @@ def C13_rules(ctx, rule="K"):
             ct = cbody.blocks[colls[0][2]]["term"]
             chain = iterator_chain(ctx, cbody, expr_operand(cbody, ct["args"][0]))
             names = [c[0] for c in chain]
-            srcn = [n for n in names if n in ALL_NODE_SOURCES]
+            srcn = [n for n in names if n in ALL_NODE_SOURCES] or (["range"] if ranges_all_nodes(chain) else [])
             filt = [(p, cb, e) for p, cb, e in chain if p in ("std::iter::Iterator::filter_map", "std::iter::Iterator::filter")]
             ext = [(p, cb, e) for p, cb, e in chain if p.endswith("::externals")]
             if ext and not filt and not [n for n in names if n in SELECTIVE_ITER]:
@@ -3373,7 +3411,7 @@ def C13_rules(ctx, rule="K"):
                 if lrp is not None and not lrp["early_exits"]:
                     chain = iterator_chain(ctx, rc, lrp["iter_expr"]) if lrp.get("iter_expr") is not None else []
                     names = [c[0] for c in chain]
-                    all_nodes = any(n_ in ALL_NODE_SOURCES or n_.endswith("::node_indices") for n_ in names) and not [n_ for n_ in names if n_ in SELECTIVE_ITER]
+                    all_nodes = ranges_all_nodes(chain) and not [n_ for n_ in names if n_ in SELECTIVE_ITER]
                     pushed = strip_refs(expr_operand(rc, pt["args"][1]))
                     ip = loop_item_path(pushed)
                     item_ok = ip is not None and ip[0] == lrp["next_bb"]
